@@ -49,7 +49,7 @@ def register_builders(reg, S):
             ("no-bad-pair-so-far", f"forall(0, _it - 1, lambda k: not ({bad_pair}))"),
         ])},
         locals={"events": SeqS(S["BPMEvent"])},
-        props=["C01", "C12", "C15"]))
+        props=["C01", "C08", "C12", "C15"]))
 
     # ------------------------------------------------------------------ anchors
     reg.add(Contract(
@@ -106,7 +106,8 @@ def register_builders(reg, S):
                 ("no-must-raise-so-far", f"forall(0, _it, lambda k: not ({must}))".replace(be, "bpm_events")),
             ])},
             locals={"events": SeqS(S[ename])},
-            props=["C01", "C11", "C12", "C15"]))
+            props=["C01", "C11", "C12", "C15"] + {"TimeSignatureEvent": ["C08"], "StarPowerEvent": ["C07"], "TrackEvent": ["C07"],
+                                                  "TextEvent": ["C09"], "SectionEvent": ["C09"], "LyricEvent": ["C09"]}.get(label, [])))
 
 
 # ---------------------------------------------------------------------- ParsedDataMap
